@@ -169,6 +169,20 @@ def runRows {α} : List (Op α) → Nat × List (List α) → Option (Nat × Lis
     | some st' => runRows ops st'
     | none => none
 
+/-! ### one entry: `table[i]` with a Python / NumPy integer (negative counts from the end, `IndexError` outside
+`-n ≤ i < n` on BOTH sides) -/
+
+/-- Python's index normalisation for a sequence of `n` items -/
+def pyIndex (n : Nat) (i : Int) : Option Nat :=
+  if 0 ≤ i then (if i.toNat < n then some i.toNat else none)
+  else if (-i).toNat ≤ n then some (n - (-i).toNat) else none
+
+/-- `table[i]`: the entry made of cell `i` of every column -/
+def pickRow {α} (cols : Cols α) (i : Int) : Option (List α) := (pyIndex (nrows cols) i).bind (rowAt cols)
+
+/-- `rows[i]` on the list of entries (Spec) -/
+def pickRows {α} (rows : List (List α)) (i : Int) : Option (List α) := (pyIndex rows.length i).bind (fun k => rows[k]?)
+
 /-! ### typed construction (`_implicit_format_conversion`): "converted to the declared type, or raises"
 
 The dispatch itself is tabulated from the running code (`Gen/C19.lean`: field kind × argument form ↦
